@@ -1,7 +1,7 @@
 """Zones: which functions run on arbitrary (possibly erroneous) input and which only behind an error gate.
 
 Gate = a CFG edge established by `!diags.iter().any(|d| d.severity == Severity::Error)` (or `all(!=)`), recognised
-semantically (lrules.error_fold_closure).  A call edge is *gated* when every call site of it in the caller is dominated by
+semantically (lrules.noerr_fact: the fold inline, or a helper function whose summary is that fold).  A call edge is *gated* when every call site of it in the caller is dominated by
 such an edge.  Zone U = everything reachable from the roots without crossing a gated call edge; zone G = reachable only
 through one."""
 from . import lrules
@@ -9,9 +9,7 @@ from .cg import CallGraph
 
 
 def gated_block(unit, body, block):
-    f = lrules.gates(body, block)
-    return (lrules.has_call(f, "Iterator>::any", False, lambda e: lrules.error_fold_closure(unit, e))
-            or lrules.has_call(f, "Iterator>::all", True, lambda e: lrules.error_fold_closure(unit, e)))
+    return lrules.noerr_fact(unit, lrules.gates(body, block))
 
 
 class Zones:
